@@ -25,7 +25,7 @@ func conc(name, build string, cases, batch int64, par int, procs ...int) Mode {
 	return Mode{Name: name, Build: build, Cases: cases, Batch: batch, Par: par, Procs: procs, WatchdogS: 120, HangIs: "inconclusive"}
 }
 
-func tagged(m Mode) Mode { m.NeedTag = true; return m }
+func tagged(m Mode) Mode           { m.NeedTag = true; return m }
 func withGo(m Mode, g string) Mode { m.Go = g; return m }
 
 // Plan returns the modes of a property in a tier ("quick" or "thorough").
